@@ -206,12 +206,10 @@ PROPS["C06"]["level_text"] += (" M2 with its trace: every async goroutine perfor
     "publish context; a state from which no goroutine can step is quiescent with everything delivered; under a strict rank every schedule is finite (explicit bound) and can be continued to a quiescent end: Wait returns after finitely many steps whatever the scheduler does.")
 PROPS["C07"]["level_text"] += " Async(+Sequential) deliveries: exactly once per dispatched event (trace theorem); no invocation starves (progress theorem under the rank hypothesis)."
 
-# C08: the recorded finding about the wait for a Sequential mutex (witness replay; the theorems of C08 are about the sequential
-# machine, where no such wait exists, and say so)
-PROPS["C08"]["known_finding_checks"] = PROPS["C08"].get("known_finding_checks", []) + [stress.known_c08]
-PROPS["C08"]["level_note"] = PROPS["C08"].get("level_note", "") + (" KNOWN FINDING: under concurrency a synchronous Sequential handler whose publisher was waiting for the handler's mutex "
-    "when the publish context was cancelled is started all the same (witness theorem sequential_wait_outlives_cancellation about M2, witness replay seqcancel on the real code); the "
-    "cancellation theorems are about one publishing goroutine at a time (M1).")
+# C08 under concurrency: the wait for a Sequential handler's mutex (history of the defect repaired by fix 1feea95)
+PROPS["C08"]["parts"].append(dict(name="stress08seqcancel", domain="stress", domain_module="stress", gen=stress.make_gen("seqcancel"), n_quick=4, n_thorough=40, chunk=2, jobs=4, timeout=900))
+PROPS["C08"]["level_text"] = PROPS["C08"].get("level_text", "") + (" Under concurrency (M2): every step that enters a synchronous handler is taken by a goroutine whose publish context is live, "
+    "also after a wait for the handler's Sequential mutex (theorem sync_entry_only_if_live; the context is checked again once the mutex is held).")
 
 # what the parts added after the second and third rounds of seeded changes exercise (appended to the evidence's rule text)
 _EXTRA_RULE = {
